@@ -6,6 +6,7 @@ import (
 	"bytes"
 	"crypto/sha256"
 
+	"github.com/codenotary/immudb/embedded/cache"
 	"github.com/codenotary/immudb/embedded/verifrt"
 )
 
@@ -31,6 +32,32 @@ func VerifH_ReadValueAtIntegrity() {
 	verifrt.Reach("accepted")
 	verifrt.Assert(n == olen && clen == olen, "length is the original length")
 	verifrt.Assert(bytes.Equal(buf[:n], orig), "returned value is the original value")
+}
+
+// VerifH_ReadValueAtCached: the same obligation with the value cache enabled and the value read
+// twice (a corrupted value must not be served from the cache either).
+func VerifH_ReadValueAtCached() {
+	olen := verifrt.Param("olen")
+	vlogLen := verifrt.Param("vlog")
+	orig := verifrt.Bytes("orig", olen)
+	hval := sha256.Sum256(orig)
+	vlog := &verifMemApp{b: verifrt.Bytes("vlog", vlogLen)}
+	c, err := cache.NewCache(4)
+	verifrt.Assume(err == nil)
+	st := &ImmuStore{maxIOConcurrency: 1, vLogs: map[byte]*refVLog{0: {vLog: vlog}}, vLogCache: c}
+	off := verifrt.I64("off")
+	verifrt.Assume(off >= 0 && off < 16)
+	for round := 0; round < 2; round++ {
+		buf := make([]byte, olen)
+		n, err := st.readValueAt(buf, encodeOffset(off, 1), hval, false)
+		if err != nil {
+			verifrt.Reach("rejected")
+			continue
+		}
+		verifrt.Reach("accepted")
+		verifrt.Assert(n == olen, "length is the original length")
+		verifrt.Assert(bytes.Equal(buf[:n], orig), "returned value is the original value")
+	}
 }
 
 // VerifH_TxReaderChain: a sequential scan accepts the next transaction only if it chains to the
